@@ -280,6 +280,8 @@ def validated_stream(ctx, fa):
                 key=f'{R}|stream-not-conditional-on-flags')
         return
     cond, val, raw = it[1], it[2], it[3]
+    if not (val[0] == 'call' and val[1] == G('map')) and raw[0] == 'call' and raw[1] == G('map'):
+        cond, val, raw = T.not_(it[1]), it[3], it[2]        # the other orientation of the same conditional
     ctx.eq(R, 'condition', cond, anyflag, ctx.where(fa, wp[0]),
            'the validator is chained whenever ANY of boundscheck / triucheck / dupcheck / ensure_sorted is on')
     n_bins = None
